@@ -256,7 +256,21 @@ def run(prog, rep, tier, repo):
         elif nk == 0:
             rep.undecided('shape-assert', key, 'no kernel call found in %s' % form, site_of(b))
         else:
-            rep.viol('shape-assert', key, '%s reaches its kernel without a dominating shape-equality assert' % form, site_of(b))
+            # the assert may sit in an in-crate helper that is given both operands, can panic and runs before the kernel (`paired_data_mut(self,
+            # other)` returning the two buffers): its test is not read here
+            me_, ot_ = ('arg', 1, f.names.get(1)), ('arg', 2, f.names.get(2))
+            kcalls = [c for c in f.calls() if c.path in pdb.bodies and pdb.bodies[c.path].parent == 'linalg::array::vops']
+            helper = None
+            for c in f.calls():
+                if c.path in pdb.bodies and pdb.bodies[c.path].parent != 'linalg::array::vops' and prog.func(c.path) is not None and prog.func(c.path).cfg.panics:
+                    at_ = {z for a_ in c.args for z in subterms(a_)}
+                    if me_ in at_ and ot_ in at_ and all(f.cfg.dominates(c.bb, kc.bb) for kc in kcalls):
+                        helper = c.path
+            if helper:
+                rep.undecided('shape-assert', key, 'no shape assert in %s itself; %s receives both operands and can panic (its test is not read)' % (form, short(helper)),
+                              site_of(b), proof=False)
+            else:
+                rep.viol('shape-assert', key, '%s reaches its kernel without a dominating shape-equality assert' % form, site_of(b))
     rep.floor('shape-assert', 8, 'Matrix op= Matrix impls')
 
     # ------------------------------------------------------------------ D5 log-domain reductions
@@ -349,8 +363,12 @@ def run(prog, rep, tier, repo):
     key = 'reduction-wiring:linalg::utils::norm:def'
     if nrm == frozenset(('m', 'sqrt', x) for x in d) and not has_top(d):
         rep.ok('reduction-wiring', key, 'norm(x) = sqrt(dot(x, x))')
+    elif '.sqrt()' not in show_expr(nrm) or has_top(d):
+        (rep.undecided if has_top(d) or has_top(nrm) else rep.viol)('reduction-wiring', key, 'norm computes %s, expected sqrt(dot(x,x))' % show_expr(nrm)[:200],
+                                                                    site_of(pdb.bodies.get('linalg::utils::norm')))
     else:
-        rep.viol('reduction-wiring', key, 'norm computes %s, expected sqrt(dot(x,x))' % show_expr(nrm), site_of(pdb.bodies.get('linalg::utils::norm')))
+        rep.undecided('reduction-wiring', key, 'norm is a square root of something not read as dot(x, x): %s' % show_expr(nrm)[:120],
+                      site_of(pdb.bodies.get('linalg::utils::norm')), proof=False)
     pr, _ = eng.result_of('linalg::utils::prod', {1: S})
     key = 'reduction-wiring:linalg::utils::prod:def'
     if pr == frozenset([('red', 'product', S)]):
@@ -368,7 +386,14 @@ def run(prog, rep, tier, repo):
         elif ok:
             rep.ok('reduction-wiring', key, 'inf_norm = max over rows of sum |x|: %s' % show_expr(r)[:160])
         else:
-            rep.viol('reduction-wiring', key, 'inf_norm computes %s' % show_expr(r)[:300], site_of(pdb.bodies[k]))
+            # definite only when an ingredient is missing altogether (no absolute value, or no maximum); a sum / maximum written as a fold in
+            # a shape the matcher does not know is not read
+            txt = show_expr(r)
+            if '.abs()' not in txt or '.max(' not in txt:
+                rep.viol('reduction-wiring', key, 'inf_norm computes %s' % txt[:300], site_of(pdb.bodies[k]))
+            else:
+                rep.undecided('reduction-wiring', key, 'inf_norm has |x|, a sum and a maximum but not in a form read as max over rows of sum |x|: %s' % txt[:120],
+                              site_of(pdb.bodies[k]), proof=False)
     rep.floor('reduction-wiring', 12, 'delegation + definitions of norm/prod/inf_norm')
     rep.trusted.append('IEEE-754 commutativity of f64 + and * (operand order canonicalised for Add/Mul only)')
     rep.assumptions.append('Rust f64 operators and std f64 methods have no fast-math latitude')
